@@ -42,6 +42,12 @@ CLAIMS = {
  "C11": dict(level="other", ref="7/C11",
    text="Deductive part: frame conditions. Every store, item store and mutating container method executed by a function under contract must hit an object allocated in that activation or something in its `modifies` clause, else the obligation frame@L fails. Proved (modifies = nothing, resp. only the visitor's own scratch field) for 14 functions of the passes: SubcircuitExpander.{visit_Circuit, visit_default, visit_LoopStatement, visit_BlockStatement, process_subcircuit, process_non_subcircuit_block}, MacroExpander.{visit_Circuit, visit_LoopStatement, visit_GateStatement, visit_default}, LetFiller.{visit_default, visit_LoopStatement, visit_BlockStatement} (+RegisterVisitor), including the fact that the new circuit SHARES the input's native gate table (so a store into it is a store into the input). Not under contract: fill_in_map, unit timing, used-qubit analysis, generator, emulator, output parsing, the builder's rebuild - for these and for 'any number of times, any order' the bounded stand-in compares deep snapshots and fresh-copy results over sequences of entry points.",
    note="Assumed: normalize_native_gates returns a non-empty dict argument unchanged (assumed contract read off the code); writes inside numpy / sly do not touch circuits."),
+ "C08": dict(level="other", ref="7/C08",
+   text="Deductive part: DiscoverSubcircuits.visit_GateStatement is proved to be one step of the bracket automaton - measure_all appends exactly one trace (the open one) at the end of the list, so traces are numbered in visit (= flat) order, prepare_all never appends, other gates change nothing; OutputParser.process_trace is proved to consume exactly one output, append exactly one Readout numbered with the running readout index, carrying the output value and attributed to the subcircuit being visited. Termination of the trace walker, the visit order through nested loops (zero counts, let-valued counts), non-zero probability of sampled outcomes and frequency counts are exercised by the bounded stand-in with a 5 s watchdog (it found and the repository now fixes the zero-count-loop hang).",
+   note="Assumed: ReadoutSubcircuit.accept_readout (numpy update) and UsedQubitIndicesVisitor.visit_GateStatement via assumed contracts; list iterators modelled as (sequence, position). TraceVisitor.visit_BlockStatement/visit_LoopStatement and the emulator walker are not under contract."),
+ "C12": dict(level="other", ref="7/C12",
+   text="Deductive part: DiscoverSubcircuits.visit_GateStatement is proved, for every state of the walker, to implement the property's automaton step: a gate other than prepare_all with nothing open raises JaqalError (so every gate lies between a prepare and the following measure, every measure is preceded by a prepare), prepare_all opens a new trace discarding the open one, measure_all closes the open trace and appends it as the next subcircuit; nothing but JaqalError escapes and only the walker's own state is modified. The loop rule (visit_BlockStatement's `had_started and reps > 1`), trailing unmatched prepare and language-level acceptance are exercised by the bounded stand-in against the automaton written independently on the reference meaning.",
+   note="Assumed: the used-qubit half of the step through an assumed contract; visit_BlockStatement iterates a generator (trace_statements) that pyvc does not inline."),
 }
 NA_REASON = "check not built yet in this round (work in progress; DESIGN.md section 7 gives the planned contracts)"
 
